@@ -221,4 +221,77 @@ pub proof fn lemma_inv_neg(x: int, k: nat, p: int)
     assert(p * pk - x * pk == -(x * pk) + pk * p) by (nonlinear_arith);
 }
 
+
+/// Bezout:  x n + y p = 1  ==>  (x mod p) n ≡ 1 (mod p)
+pub proof fn lemma_bezout_inverse(x: int, y: int, n: int, p: int, xr: int)
+    requires p >= 1, x * n + y * p == 1, xr == x % p
+    ensures 0 <= xr < p, cong(xr * n, 1, p)
+{
+    lemma_mod_bound(x, p);
+    lemma_cong_add_multiple(1, -y, p);
+    assert(x * n == 1 + (-y) * p) by (nonlinear_arith) requires x * n + y * p == 1;
+    lemma_cong_mod(x, p);
+    lemma_cong_mul(xr, x, n, p);
+}
+
+pub proof fn lemma_common_divisor(g: nat, n: nat, p: nat)
+    requires g >= 2, dvd(g, n), dvd(g, p)
+    ensures !coprime(n, p)
+{
+    assert(dvd(g, n) && dvd(g, p));
+}
+
+
+/// the algebra of `mg_inv`:  mm R ≡ x,  mi mm ≡ 1,  y R ≡ mi r2,  r2 ≡ R²   ==>   y x ≡ R²   (mod n)
+pub proof fn lemma_mg_inv(y: int, x: int, mm: int, mi: int, r2: int, big_r: int, n: int)
+    requires
+        n > 0,
+        cong(mm * big_r, x, n),
+        cong(mi * mm, 1, n),
+        cong(y * big_r, mi * r2, n),
+        cong(r2, big_r * big_r, n),
+    ensures cong(y * x, big_r * big_r, n)
+{
+    // y x ≡ y (mm R) = (y R) mm ≡ (mi r2) mm = (mi mm) r2 ≡ r2 ≡ R²
+    lemma_cong_mul(mm * big_r, x, y, n);
+    assert(y * (mm * big_r) == (y * big_r) * mm) by (nonlinear_arith);
+    lemma_cong_mul(y * big_r, mi * r2, mm, n);
+    assert((mi * r2) * mm == (mi * mm) * r2) by (nonlinear_arith);
+    lemma_cong_mul(mi * mm, 1, r2, n);
+    assert(1 * r2 == r2);
+    lemma_cong_trans(y * x, (y * big_r) * mm, (mi * mm) * r2, n);
+    lemma_cong_trans(y * x, (mi * mm) * r2, r2, n);
+    lemma_cong_trans(y * x, r2, big_r * big_r, n);
+}
+
+/// a common divisor of mm and n divides every x ≡ mm R (mod n)
+pub proof fn lemma_not_coprime_transfer(mm: nat, big_r: nat, x: nat, n: nat)
+    requires n > 0, !coprime(mm, n), cong(mm as int * big_r as int, x as int, n as int)
+    ensures !coprime(x, n)
+{
+    let e = choose|e: nat| e >= 2 && #[trigger] dvd(e, mm) && dvd(e, n);
+    lemma_dvd_mul_right(e, mm, big_r);
+    // x = mm R - k n  for k = (mm R) / n - x / n
+    let a = mm * big_r;
+    lemma_mul_nonneg(mm as int, big_r as int);
+    lemma_fundamental_div_mod(a as int, n as int);
+    lemma_fundamental_div_mod(x as int, n as int);
+    let qa = a as int / n as int; let qx = x as int / n as int;
+    // x + n qa = a + n qx
+    if qa >= qx {
+        lemma_dvd_mul_right(e, n, (qa - qx) as nat);
+        assert(a as int - x as int == (n as int) * (qa - qx)) by (nonlinear_arith)
+            requires a as int == (n as int) * qa + (a as int) % (n as int), x as int == (n as int) * qx + (x as int) % (n as int), (a as int) % (n as int) == (x as int) % (n as int);
+        lemma_mul_nonneg(n as int, qa - qx);
+        lemma_dvd_sub(e, a as nat, (n * ((qa - qx) as nat)) as nat);
+        assert(dvd(e, x) && dvd(e, n));
+    } else {
+        lemma_dvd_mul_right(e, n, (qx - qa) as nat);
+        assert(x as int - a as int == (n as int) * (qx - qa)) by (nonlinear_arith)
+            requires a as int == (n as int) * qa + (a as int) % (n as int), x as int == (n as int) * qx + (x as int) % (n as int), (a as int) % (n as int) == (x as int) % (n as int);
+        lemma_dvd_add_mul(e, a as nat, n, (qx - qa) as nat);
+        assert(dvd(e, x) && dvd(e, n));
+    }
+}
+
 } // verus!
